@@ -29,6 +29,7 @@ type zzExch struct { // one HTTP exchange
 	raw      [][]byte
 	tag      string
 	onStatus func(code int) // observes the moment the status line is committed
+	breakAt  int            // >0: the connection breaks when event number breakAt (1-based) is written: it and later ones are not received
 }
 
 func (w *zzExch) Header() http.Header { return w.hdr }
@@ -58,6 +59,9 @@ func zzWriteEvent(w http.ResponseWriter, evt Event) (int, error) {
 	x := w.(*zzExch)
 	if x.code == 0 {
 		x.code = 200
+	}
+	if x.breakAt > 0 && len(x.events)+1 >= x.breakAt {
+		return 0, errors.New("write tcp: broken pipe")
 	}
 	x.events = append(x.events, zzEvt{name: evt.Name, id: evt.ID, data: evt.Data})
 	return 1, nil
@@ -269,6 +273,24 @@ func zzC08Resume() {
 	} else {
 		vReach("no-cursor")
 		return // nothing to resume with: the client has seen no event id
+	}
+	if avail := n1 + n2 - (resumeAfter + 1); avail > 0 && vBool("aResumeBreaksMidReplay") {
+		// a resumed GET whose connection breaks part-way through the replay: the client has received the events before
+		// the break, and resumes from the last of them (or from where it was, if none got through)
+		f := vChoice("replayedBeforeTheBreak", avail)
+		broken := zzNewExch("broken")
+		broken.breakAt = f + 1
+		if priming && resumeAfter < 0 {
+			// (the replay after the priming id starts with the first message; nothing else precedes it)
+		}
+		env.hangScript = nil
+		zzGET(c, broken, version, lastID)
+		vAssert(check(broken, resumeAfter+1, "C08.broken-resume") == f, "C08.broken-resume.received-the-events-before-the-break")
+		if f > 0 {
+			resumeAfter += f
+			lastID = formatEventID("st1", base+resumeAfter)
+		}
+		vReach("broken-replay")
 	}
 	n3 := total - n1 - n2
 	env.hangScript = func(*streamableServerConn, context.Context) {
